@@ -178,7 +178,8 @@ ASSUME = ['str subclasses as elements are outside the universe',
 
 
 def main(argv):
-    return run_check('C06', [StringFitsStream(), CrossTypeStream()], argv, trusted_base=TRUSTED, assumptions=ASSUME)
+    return run_check('C06', [StringFitsStream(), CrossTypeStream()], argv, trusted_base=TRUSTED, assumptions=ASSUME,
+                     translated=('checker',))
 
 
 if __name__ == '__main__':
